@@ -29,12 +29,18 @@ pub fn main(args: &[String]) {
     let mut out = Out::create(&args[2]);
     let mut rng = StdRng::seed_from_u64(seed);
     for scen in 0..nscen {
-        scenario(&mut rng, seed, scen, &mut out);
+        if scenario(&mut rng, seed, scen, &mut out) {
+            // a call into the pool never returned (HHang is in the trace): its threads cannot be joined, so the
+            // trace written so far is all this process can deliver
+            eprintln!("{} records (a scenario hung)", out.finish());
+            std::process::exit(0);
+        }
     }
     eprintln!("{} records", out.finish());
 }
 
-fn scenario(rng: &mut StdRng, seed: u64, scen: usize, out: &mut Out) {
+fn scenario(rng: &mut StdRng, seed: u64, scen: usize, out: &mut Out) -> bool {
+    let mut hung = false;
     let nperm = rng.gen_range(0..=2usize);
     let linger_ms: u64 = if rng.gen_bool(0.7) { if rng.gen_bool(0.3) { rng.gen_range(1..4) } else { rng.gen_range(4..20) } } else { 0 };
     let ntasks = rng.gen_range(1..=7usize);
@@ -128,7 +134,21 @@ fn scenario(rng: &mut StdRng, seed: u64, scen: usize, out: &mut Out) {
         verif::emit("HHang", &[]);
     }
     verif::emit("HShutDownCall", &[]);
-    group.shut_down();
+    // shut_down() itself may block (lock-order inversions): call it from its own thread under a watchdog
+    let sd_done = Arc::new(AtomicBool::new(false));
+    {
+        let (g, d) = (group.clone(), sd_done.clone());
+        std::thread::Builder::new().name("shutdowner".into()).spawn(move || { g.shut_down(); d.store(true, Ordering::SeqCst); }).unwrap();
+    }
+    let mut waited = 0;
+    while !sd_done.load(Ordering::SeqCst) && waited < 20000 {
+        std::thread::sleep(Duration::from_millis(1));
+        waited += 1;
+    }
+    if !sd_done.load(Ordering::SeqCst) {
+        verif::emit("HHang", &[]);
+        hung = true;
+    }
     let done = Arc::new(AtomicBool::new(false));
     let done2 = done.clone();
     let g2 = group.clone();
@@ -149,6 +169,7 @@ fn scenario(rng: &mut StdRng, seed: u64, scen: usize, out: &mut Out) {
         for h in handles { h.join().unwrap(); }
     } else {
         verif::emit("HHang", &[]);
+        hung = true;
     }
     let mut waited = 0;
     while !done.load(Ordering::SeqCst) && waited < 20000 {
@@ -159,6 +180,7 @@ fn scenario(rng: &mut StdRng, seed: u64, scen: usize, out: &mut Out) {
         waiter.join().unwrap();
     } else {
         verif::emit("HHang", &[]);
+        hung = true;
     }
     verif::emit("HEnd", &[]);
     verif::set_sink(None);
@@ -168,4 +190,5 @@ fn scenario(rng: &mut StdRng, seed: u64, scen: usize, out: &mut Out) {
     for e in evs {
         out.emit(e);
     }
+    hung
 }
